@@ -1771,16 +1771,16 @@ const VIEW_VARIANTS: usize = 11;
 
 /// matrix flat views on Own elements
 macro_rules! mat_views {
-    ($fname:ident, $M:ty, $n:expr, $name:expr, $as:ident, $as_mut:ident, $row_major:expr) => {
+    ($fname:ident, $M:ty, $n:expr, $name:expr, $as:ident, $as_mut:ident, $ptr:ident, $ptr_mut:ident, $row_major:expr) => {
         fn $fname(variant: usize) -> Option<ConvOut> {
             const N: usize = $n;
-            if variant >= 2 {
+            if variant >= 4 {
                 return None;
             }
             ledger_reset();
             let mut m = <$M as MatX<Own>>::from_fn(|_, _| Own::new());
             let base = &m as *const $M as usize;
-            let api = format!("{}::{}", $name, if variant == 0 { stringify!($as) } else { stringify!($as_mut) });
+            let api = format!("{}::{}", $name, [stringify!($as), stringify!($as_mut), stringify!($ptr), stringify!($ptr_mut)][variant]);
             // listing order of the native layout: line l, position k
             let pos = |t: usize| -> (usize, usize) { if $row_major { (t / N, t % N) } else { (t % N, t / N) } };
             let mut res = Ok(());
@@ -1812,14 +1812,51 @@ macro_rules! mat_views {
                         }
                     }
                 }
+            } else if variant == 2 {
+                // raw pointer to the elements: the matrix's own address, N*N elements in native line order
+                let mark = ledger_mark();
+                match guarded(|| m.$ptr()) {
+                    Err(p) => res = conv_err("panic", "conversion", format!("panicked: {}", p)),
+                    Ok(ptr) => {
+                        if ptr as usize != base {
+                            res = conv_err("wrong_value", "view_not_aliasing", format!("pointer is {:#x}, the matrix lives at {:#x}", ptr as usize, base));
+                        } else {
+                            for t in 0..N * N {
+                                let (i, j) = pos(t);
+                                // in bounds of the matrix object (checked above): a real read through the pointer
+                                let got = unsafe { (ptr.add(t) as usize, (*ptr.add(t)).id()) };
+                                let want = (m.at(i, j) as *const Own as usize, (i * N + j) as u32);
+                                if got != want {
+                                    res = conv_err("wrong_value", "view_order", format!("pointer + {} is (address {:#x}, id {}) but element ({},{}) is (address {:#x}, id {})", t, got.0, got.1, i, j, want.0, want.1));
+                                    break;
+                                }
+                            }
+                        }
+                        if res.is_ok() && !ledger_events_from(mark).is_empty() {
+                            res = conv_err("ownership", "conversion_touches_elements", format!("taking the pointer produced ledger events {:?}", ledger_events_from(mark)));
+                        }
+                    }
+                }
             } else {
+                let via_ptr = variant == 3;
                 let mut expect: Vec<u32> = (0..(N * N) as u32).collect();
                 for t in 0..N * N {
                     let fresh = Own::new();
                     let fid = fresh.id();
                     let (i, j) = pos(t);
                     let r = guarded(|| {
-                        m.$as_mut()[t] = fresh;
+                        if via_ptr {
+                            let p = m.$ptr_mut();
+                            if p as usize == base {
+                                // in bounds of the matrix object: replace the element, dropping the old one
+                                drop(unsafe { std::ptr::replace(p.add(t), fresh) });
+                            } else {
+                                std::mem::forget(fresh);
+                                panic!("mutable pointer is {:#x}, the matrix lives at {:#x}", p as usize, base);
+                            }
+                        } else {
+                            m.$as_mut()[t] = fresh;
+                        }
                     });
                     if let Err(p) = r {
                         res = conv_err("panic", "conversion", format!("panicked: {}", p));
@@ -1844,12 +1881,12 @@ macro_rules! mat_views {
         }
     };
 }
-mat_views!(mview_r2, rm::Mat2<Own>, 2, "Rows2", as_row_slice, as_mut_row_slice, true);
-mat_views!(mview_r3, rm::Mat3<Own>, 3, "Rows3", as_row_slice, as_mut_row_slice, true);
-mat_views!(mview_r4, rm::Mat4<Own>, 4, "Rows4", as_row_slice, as_mut_row_slice, true);
-mat_views!(mview_c2, cm::Mat2<Own>, 2, "Cols2", as_col_slice, as_mut_col_slice, false);
-mat_views!(mview_c3, cm::Mat3<Own>, 3, "Cols3", as_col_slice, as_mut_col_slice, false);
-mat_views!(mview_c4, cm::Mat4<Own>, 4, "Cols4", as_col_slice, as_mut_col_slice, false);
+mat_views!(mview_r2, rm::Mat2<Own>, 2, "Rows2", as_row_slice, as_mut_row_slice, as_row_ptr, as_mut_row_ptr, true);
+mat_views!(mview_r3, rm::Mat3<Own>, 3, "Rows3", as_row_slice, as_mut_row_slice, as_row_ptr, as_mut_row_ptr, true);
+mat_views!(mview_r4, rm::Mat4<Own>, 4, "Rows4", as_row_slice, as_mut_row_slice, as_row_ptr, as_mut_row_ptr, true);
+mat_views!(mview_c2, cm::Mat2<Own>, 2, "Cols2", as_col_slice, as_mut_col_slice, as_col_ptr, as_mut_col_ptr, false);
+mat_views!(mview_c3, cm::Mat3<Own>, 3, "Cols3", as_col_slice, as_mut_col_slice, as_col_ptr, as_mut_col_ptr, false);
+mat_views!(mview_c4, cm::Mat4<Own>, 4, "Cols4", as_col_slice, as_mut_col_slice, as_col_ptr, as_mut_col_ptr, false);
 
 /// plain-data views: u8 / u64 / f32 / bool vectors (alignment and size differ from Own)
 fn views_plain(variant: usize) -> Option<ConvOut> {
@@ -1884,6 +1921,25 @@ fn views_plain(variant: usize) -> Option<ConvOut> {
                     res = conv_err("wrong_value", "element_order", format!("from_slice(as_slice) changed field {}", i));
                 }
             }
+            // from_slice with a source of every length 0..=N+3: the first min(len, N) entries in order,
+            // the missing ones Default, the surplus ignored; never a panic
+            let src: Vec<$T> = (0..n + 3).map(|i| mk(i + 1)).collect();
+            for len in 0..=n + 3 {
+                if res.is_err() {
+                    break;
+                }
+                match guarded(|| <$V<$T>>::from_slice(&src[..len])) {
+                    Err(p) => res = conv_err("panic", "conversion", format!("from_slice of a {}-element slice panicked: {}", len, p)),
+                    Ok(got) => {
+                        for i in 0..n {
+                            let want = if i < len { src[i] } else { <$T>::default() };
+                            if res.is_ok() && *got.at(i) != want {
+                                res = conv_err("wrong_value", "element_order", format!("from_slice of a {}-element slice {:?}: field {} = {:?}, expected {:?}", len, &src[..len], i, got.at(i), want));
+                            }
+                        }
+                    }
+                }
+            }
             ConvOut { api: format!("{}::as_slice/as_mut_slice/from_slice", stringify!($V)), result: res, sample: format!("{}<{}> views and from_slice round trip", stringify!($V), stringify!($T)) }
         }};
     }
@@ -1914,7 +1970,7 @@ fn view_cases() -> Vec<(usize, usize, usize)> {
         }
     }
     for m in 0..6 {
-        for variant in 0..2 {
+        for variant in 0..4 {
             v.push((1, m, variant));
         }
     }
